@@ -207,6 +207,9 @@ Faults(T, env, f) ==
     [] T.t = "set"   -> {VSet(<<m, x>>) : m \in Mem1(T.e, env, f), x \in Faults(T.e, env, f)}
     [] T.t = "union" -> {x \in UNION {Faults(T.ms[i], env, f) : i \in DOMAIN T.ms} : M3(x, T, env, {}, FALSE) = "F"}
     [] T.t = "inter" -> UNION {Faults(b, env, f) : b \in Take(Branches(T, env), 3)}
+                        \* values of some member that are not values of every member ("ellipse" for ("circle" | "ellipse") & "circle")
+                        \cup Take({x \in UNION {Take(Cand(T.ms[i], env, f), 8) : i \in DOMAIN T.ms} :
+                                    M3(x, T, env, {}, FALSE) = "F" /\ \E i \in DOMAIN T.ms : M3(x, T.ms[i], env, {}, FALSE) = "T"}, 3)
     [] T.t = "ref"   -> IF f = 0 THEN {} ELSE Faults(Lookup(env, T.n), env, f - 1)
     [] T.t = "deco"  -> Faults(T.a, env, f)
     [] T.t = "app"   -> IF f = 0 THEN {} ELSE Faults(Instantiate(env, T.n, T.args), env, f - 1)
